@@ -694,7 +694,6 @@ func fsProgMain(args []string) {
 					if r.Outs[k] != mouts[k] {
 						okAll = false
 						opTxt := strings.Split(strings.SplitN(r.Prog, " -- ", 2)[1], " ; ")[k]
-						key := "result:" + strings.Fields(opTxt)[0]
 						other := results[i][0]
 						if other.Backend == r.Backend {
 							other = results[i][1]
@@ -711,7 +710,9 @@ func fsProgMain(args []string) {
 							rep.Fail(hx.Failure{Kind: "impl-violates-property", Key: k2, Case: lines[i] + " [call #" + strconv.Itoa(k) + ": " + opTxt + "]", Expected: "both backends: " + mouts[k], Observed: r.Backend + ": " + r.Outs[k]})
 							break
 						}
-						rep.Fail(hx.Failure{Kind: "model-impl-divergence", Key: key + ":" + r.Backend, Case: lines[i] + " [" + r.Backend + " call #" + strconv.Itoa(k) + ": " + opTxt + "]", Expected: "model: " + mouts[k], Observed: "impl: " + r.Outs[k]})
+						// Model.Fs is the reference model the property speaks of (the specification): an answer that differs from it
+						// on a conflict-free call is a violation with this program as its input, whatever the other backend says
+						rep.Fail(hx.Failure{Kind: "impl-violates-property", Key: "differs-from-the-reference-model:" + strings.Fields(opTxt)[0] + ":" + r.Backend, Case: lines[i] + " [" + r.Backend + " call #" + strconv.Itoa(k) + ": " + opTxt + "]", Expected: "reference model: " + mouts[k], Observed: r.Backend + ": " + r.Outs[k]})
 						break
 					}
 				}
@@ -728,7 +729,7 @@ func fsProgMain(args []string) {
 						}
 						rep.Fail(hx.Failure{Kind: "impl-violates-property", Key: key, Case: lines[i], Expected: "both backends: " + md, Observed: r.Backend + ": " + r.Dump})
 					} else if md != r.Dump {
-						rep.Fail(hx.Failure{Kind: "model-impl-divergence", Key: "final-tree:" + r.Backend, Case: lines[i] + " [" + r.Backend + "]", Expected: "model: " + md, Observed: "impl: " + r.Dump})
+						rep.Fail(hx.Failure{Kind: "impl-violates-property", Key: "differs-from-the-reference-model:final-tree:" + r.Backend, Case: lines[i] + " [" + r.Backend + "]", Expected: "reference model: " + md, Observed: r.Backend + ": " + r.Dump})
 					} else {
 						rep.Hist("model=impl:" + r.Backend)
 					}
